@@ -213,7 +213,9 @@ class Lexical:
         This method should generally not need to be called, as it is used to
         generate and cache the instance :attr:`hash` property.
         """
-        return hash((__class__, item.sort_tuple))
+        # Only the sort tuple (all ints): hashing the class object as well
+        # would make the value differ between processes, and it is pickled.
+        return hash(item.sort_tuple)
 
     @staticmethod
     def orderitems(lhs: Lexical, rhs: Lexical, /) -> int:
